@@ -335,7 +335,9 @@ class Interp:
                 return self.class_val(node, mi)
             return FuncVal(node, mi)
         if name in mi.assigns:
-            return self.eval_const(mi, mi.assigns[name], name)
+            if name in mi.mutated_opaquely:
+                return Unknown("global %s.%s (mutated by module-level code that is not replayed)" % (mi.name, name))
+            return self.eval_const(mi, mi.assigns[name], name, mi.mutations.get(name))
         if name in mi.imports:
             mod, attr = mi.imports[name]
             if attr is None:
@@ -377,14 +379,21 @@ class Interp:
                     return v
         raise KeyError(name)
 
-    def eval_const(self, mi, expr, name="?"):
-        """Evaluate a module- or class-level constant expression (must be path independent)."""
+    def eval_const(self, mi, expr, name="?", mutations=None):
+        """Evaluate a module- or class-level constant expression (must be path independent).  `mutations`: the
+        module-level statements `NAME.method(...)` / `NAME[k] = v` that follow the assignment are replayed in order."""
         st = St()
         st.frames.append(Frame({}, None, mi))
         outs = list(self.ev(expr, st))
         if len(outs) != 1 or isinstance(outs[0][1], Exc):
             return Unknown("constant %s.%s" % (mi.name, name))
         st1, v = outs[0]
+        for stmt in mutations or []:
+            st1.frame.vars[name] = v
+            outs = list(self.ex(stmt, st1))
+            if len(outs) != 1 or outs[0][1] is not None:
+                return Unknown("constant %s.%s (module-level update at line %d)" % (mi.name, name, stmt.lineno))
+            st1 = outs[0][0]
         if st1.pc:
             for c in st1.pc:
                 self.axiom(("const", mi.name, name, c.get_id()), c)
@@ -956,6 +965,12 @@ class Interp:
             yield st1, v
 
     # comprehensions -----------------------------------------------------------
+    @staticmethod
+    def _exc(name, *args):
+        from .ops import exc
+
+        return exc(name, *args)
+
     def _comp(self, generators, st, leaf):
         """Run nested comprehension loops; leaf(st) -> generator of (st, None|Exc)."""
         if not generators:
@@ -965,6 +980,10 @@ class Interp:
         for st1, it in list(self.ev(g.iter, st)):
             if isinstance(it, Exc):
                 yield st1, it
+                continue
+            if it is None or isinstance(it, (bool, int, Fraction)):
+                # for ... in None / in a number: TypeError
+                yield st1, self._exc("TypeError", "'%s' object is not iterable" % ("NoneType" if it is None else type(it).__name__))
                 continue
             items = self.iterate(it, st1)
 
@@ -1056,8 +1075,9 @@ class Interp:
                 if isinstance(kv, Exc):
                     yield s1, kv
                 else:
-                    s1.get(acc).items[self.hashable(kv[0])] = kv[1]
-                    yield s1, None
+                    from . import models as _M
+
+                    yield from _M.dict_store(self, s1, acc, kv[0], kv[1])
 
         for st1, r in self._comp(node.generators, st, leaf):
             self._drop_comp_vars(st1, saved)
